@@ -77,7 +77,6 @@ theorem initGrid_feasible (feas : Pos → Bool) (sizes : List Nat) (n p : Nat) :
 theorem initWarm_feasible (feas : Pos → Bool) (sp : Space) (ws : List Para) (ps : List Pos) (h : initWarm feas sp ws = .ok ps) :
     ∀ q ∈ ps, feas q = true := by
   unfold initWarm at h
-  simp only [bind, Except.bind, pure, Except.pure] at h
   split at h
   · simp at h
   · simp only [Except.ok.injEq] at h; subst h
